@@ -38,6 +38,8 @@ var $callDeferred = (deferred, jsErr, fromPanic) => {
 
     var localPanicValue = $curGoroutine.panicStack.pop();
     var localPanicAborted = false;
+    var ownDeferred = deferred;
+    var unwindToRecoveringFrame = false;
     if (localPanicValue !== undefined) {
         $panicStackDepth = $getStackDepth();
         $panicValue = localPanicValue;
@@ -108,6 +110,13 @@ var $callDeferred = (deferred, jsErr, fromPanic) => {
                     $recoveredUnwind = true;
                     throw null;
                 }
+                if (deferred !== ownDeferred) {
+                    /* This frame was resumed while a panic was unwinding through it, and the
+                       panic has now been recovered by a deferred call of a frame further up:
+                       keep unwinding to that frame instead of returning to the caller. */
+                    unwindToRecoveringFrame = true;
+                    throw null;
+                }
                 return;
             }
         }
@@ -122,6 +131,9 @@ var $callDeferred = (deferred, jsErr, fromPanic) => {
             }
             // Re-throw the exception to reach deferral execution call at the end
             // of the function.
+            throw e;
+        }
+        if (unwindToRecoveringFrame) {
             throw e;
         }
         // We are at the end of the function, handle the error or re-throw to
